@@ -62,6 +62,88 @@ class ClassSourceCloseRaises(ClassSource):
         raise self.exc("close failed")
 
 
+def root_checking(resolver, problems):
+    """Per-event execution = executing with the EVENT as root value: at a root field the source argument is the
+    event, and info.root_value must be that same object (as in execute(document, root_value=event))."""
+    def wrapped(source, info, **args):
+        if info.path.prev is None and info.root_value is not source:
+            problems.append((tuple(info.path.as_list()), type(info.root_value).__name__))
+        return resolver(source, info, **args)
+    return wrapped
+
+
+DISABLED_SDL = """
+type Query { ev: Ev xs: [Int] n: Int }
+type Subscription { ev: Ev xs: [Int] n: Int }
+type Ev { xs: [Int] tick: Int o: Ev os: [Ev] }
+"""
+DISABLED_DOCS = [
+    ("subscription { xs @stream(if: false) n }", {}),
+    ("subscription ($s: Boolean = false) { xs @stream(if: $s, initialCount: 1) n }", {}),
+    ("subscription ($s: Boolean!) { ev { xs @stream(if: $s) os @stream(if: $s, initialCount: 0) { tick } } }", {"s": False}),
+    ("subscription { ev { ... @defer(if: false) { tick } xs } }", {}),
+    ("subscription ($d: Boolean!) { ev { ...F @defer(if: $d, label: \"l\") o { ... @defer(if: $d) { tick } } } } fragment F on Ev { tick xs }", {"d": False}),
+    ("subscription { ev { os @stream(if: false) { xs @stream(if: false) ... @defer(if: false) { tick } } } }", {}),
+]
+
+
+def disabled_incremental_directives(ck):
+    """Subscriptions whose @defer/@stream are switched off must behave like plain subscriptions: response i equals the
+    (non-incremental) execution of the same selection set with event i as root value."""
+    import asyncio
+    from graphql import build_schema, execute_sync, parse
+    from graphql.execution import subscribe, ExecutionResult
+    schema = build_schema(DISABLED_SDL)
+    events = [{"ev": {"xs": [1, 2, 3], "tick": 1, "o": {"tick": 2, "xs": []}, "os": [{"tick": 3, "xs": [4]}, {"tick": 5, "xs": None}]},
+               "xs": [7, 8], "n": 1},
+              {"ev": None, "xs": None, "n": 2},
+              {"ev": {"xs": [], "tick": None, "o": None, "os": []}, "xs": [], "n": 3}]
+    for text, variables in DISABLED_DOCS:
+        sdoc = parse(text)
+        qdoc = parse(text.replace("subscription", "query", 1))
+
+        async def run_one():
+            async def src():
+                for e in events:
+                    yield e
+            res = subscribe(schema, sdoc, variable_values=variables, subscribe_field_resolver=lambda *_a, **_k: src())
+            if hasattr(res, "__await__"):
+                res = await res
+            if isinstance(res, ExecutionResult):
+                return ("errors-only", [e.message for e in res.errors or []])
+            out = []
+            async for r in res:
+                out.append(r)
+            return ("stream", out)
+        loop = asyncio.new_event_loop()
+        try:
+            outcome = loop.run_until_complete(asyncio.wait_for(run_one(), 10))
+        except Exception as e:  # noqa: BLE001
+            outcome = ("raised", type(e).__name__ + ": " + str(e)[:200])
+        finally:
+            loop.close()
+        ck.evaluations += 1
+        key = f"disabled-incremental:{text!r}"
+        rep = {"relation": "disabled @defer/@stream: response i = execute(event i)", "document": text, "variables": variables}
+        ck.note_case(("disabled", text), nontrivial=True)
+        if outcome[0] != "stream":
+            ck.violation(key, f"subscription with switched-off @defer/@stream did not give a response stream: {outcome}"[:300], dict(rep, impl=repr(outcome)[:400]))
+            continue
+        got = outcome[1]
+        want = [execute_sync(schema, qdoc, root_value=e, variable_values=variables) for e in events]
+        if len(got) != len(want):
+            ck.violation(key, f"{len(got)} responses for {len(want)} events", dict(rep, impl=len(got)))
+            continue
+        for i, (g, w) in enumerate(zip(got, want)):
+            gd, wd = getattr(g, "data", None), w.data
+            ge = sorted(tuple(e.path or ()) for e in (getattr(g, "errors", None) or []))
+            we = sorted(tuple(e.path or ()) for e in (w.errors or []))
+            if not hasattr(g, "data") or gd != wd or ge != we:
+                ck.violation(key, f"response {i} is {g!r:.200}, executing the selection set on event {i} gives data {wd!r:.120} errors {we}",
+                             dict(rep, index=i, impl=repr(g)[:400], model=repr((wd, we))[:400]))
+                break
+
+
 def gen_source(items, log, gate=None):
     async def gen():
         log.append(("open",))
@@ -99,6 +181,7 @@ def run(tier):
         return ck.finish()
     m_exec, m_sub = Model("exec"), Model("subscribe")
     quick = tier == "quick"
+    root_problems = []
     rng = ck.rng
     ck.rule = ("generated schemas (C02 generator + a Subscription type with the Query fields) x subscription documents (one root "
                "field taken from a generated operation, with variables/fragments/directives/abstract types) x event sequences of "
@@ -207,9 +290,10 @@ def run(tier):
                        ClassSourceWithClose(items, log, gate) if kind == "class-aclose" else
                        type("Src", (ClassSourceCloseRaises,), {"exc": close_exc})(items, log, gate))
                 clog = []
+                root_problems.clear()
                 res = subscribe(schema, sdoc, root_value=sub_root, variable_values=variables,
                                 subscribe_field_resolver=lambda _r, _i, **_a: src,
-                                field_resolver=G.make_resolver(clog))
+                                field_resolver=root_checking(G.make_resolver(clog), root_problems))
                 if hasattr(res, "__await__"):
                     res = await res
                 if isinstance(res, ExecutionResult):
@@ -280,6 +364,11 @@ def run(tier):
                 ck.violation(key, f"subscribe did not return a response stream: {outcome[0]} {outcome[1]!r}"[:300], dict(rep, impl=repr(outcome[:2])))
                 continue
             _, terminal, got = outcome
+            if root_problems:
+                ck.violation(key, f"during per-event execution info.root_value is not the event at root field {root_problems[0][0]} "
+                                  f"(it is a {root_problems[0][1]}): not the same as executing with the event as root value",
+                             dict(rep, relation="per-event execution has the event as root value (info.root_value)",
+                                  impl=[list(map(str, x)) for x in root_problems[:3]]))
             want_terminal = "raised" if fail_at is not None else "end"
             if terminal != want_terminal:
                 ck.violation(key, f"stream terminated with {terminal!r}, expected {want_terminal!r} (after {len(got)} responses)",
@@ -375,6 +464,7 @@ def run(tier):
             ck.violation(f"creation:{dk}:{variables!r}", f"invalid subscription request ({dk}) did not yield an errors-only response: {res!r}"[:300],
                          {"relation": "creation failure -> single errors-only response", "document": docs[dk], "variables": repr(variables)})
     ck.count("cases", ncases)
+    disabled_incremental_directives(ck)
     return ck.finish()
 
 
